@@ -81,7 +81,7 @@ OWN_SPECS = [
 # whose inodes and data live behind them; a forced shrink to KEEP groups can only use the blocks
 # the shrink itself frees (descriptor blocks) - the allocator's tightest mode
 OWN_SPECS += [
-    dict(name="c08_packed15", kb=32768, packed=dict(keep=15, bpg=256, opts="^has_journal,^resize_inode,^metadata_csum,^64bit,^huge_file,^dir_nlink")),
+    dict(name="c08_packed15", kb=32768, packed=dict(keep=15, bpg=256, sparse_data=True, opts="^has_journal,^resize_inode,^metadata_csum,^64bit,^huge_file,^dir_nlink")),
     dict(name="c08_packed7c", kb=32768, packed=dict(keep=7, bpg=256, opts="^has_journal,^resize_inode")),
 ]
 QUICK_SPECS = ["c08_packed15", "c08_packed7c", "ext2_1k", "ext4_1k", "ext4_4k", "ext4_flex4_g", "ext4_noflex", "ext4_metabg",
@@ -420,7 +420,15 @@ def build_packed(b, env, img, tmp, P, kb):
         p = os.path.join(tmp, name)
         with open(p, "wb") as f:
             for k in range(nblk):
-                f.write(bytes(((k * 7 + o + tag) % 250) + 1 for o in range(1024)))
+                if P.get("sparse_data"):
+                    # mostly zero bytes (no block entirely zero): data that lands on an inode table
+                    # by mistake then reads as unused inodes, not as garbage that aborts the run
+                    blk = bytearray(1024)
+                    for o in range(0, 1024, 16):
+                        blk[o] = 1 + (k * 7 + o // 16 + tag) % 250
+                    f.write(bytes(blk))
+                else:
+                    f.write(bytes(((k * 7 + o + tag) % 250) + 1 for o in range(1024)))
         return p
     spare = 10
     fb, fi = kept_free()
